@@ -122,7 +122,7 @@ CHECKS['C19'] = dict(
     quick_is_thorough=True,
     level='model_checking',
     steps=[dict(mode='asan', bin='c19_justify')],
-    rule='fonts {Padauk, Scheherazade, charis, Awami_test, Annapurna, S-full (justification levels), S-full RTL, S-full and S-full RTL with the line-end flag (temporary line-end slots)} x 3 (thorough 6) corpus texts of 5-9 (thorough 5-12) characters x dir flags 0..7 x {font NULL, ppm 24}; '
+    rule='fonts {Padauk, Scheherazade, charis, Awami_test, Annapurna, S-full (justification levels), S-full RTL, S-full and S-full RTL with the line-end flag (temporary line-end slots), S-full with the line-end flag and a line-end glyph id the font does not have, ...} x 3 (thorough 6) corpus texts of 5-9 (thorough 5-12) characters x dir flags 0..7 x {font NULL, ppm 24, on the synthesised fonts also a font with an advance callback (hinted)}; '
          'histories: EVERY subset of cluster-boundary break positions (up to 2^9 quick / 2^11 thorough) applied with gr_slot_linebreak_before, then for every line every (width in {-1,0,W/4,W,3W,1e6}) x flags 0..3 x (pFirst,pLast) in {NULL, whole line, inner, last-only, first-only, (first,NULL), (NULL,last), (second,NULL)}, '
          'plus the first one and two characters of the first text and a lone space as texts of their own; all calls applied one after another on the same segment; after EVERY call every line must still be the same slots in the same order with prev the inverse of next, finite origins and return value, unchanged gids when the font has no justification data; gr_seg_destroy + allocation balance at the end',
     state_meaning='states = break histories (one segment per subset of break positions); transitions = gr_seg_justify calls, each followed by the full integrity check of all lines',
@@ -161,12 +161,12 @@ CHECKS['C10'] = dict(
 CHECKS['C16'] = dict(
     quick_is_thorough=True,
     level='model_checking',
-    steps=[dict(mode='asan', bin='c16_borrow'), dict(name='load_mutants_release_discipline', py=cached_binary('c01_load', 'C16', 'C01'), targets=[('asan', 'c01_load')])],
+    steps=[dict(mode='asan', bin='c16_borrow'), dict(name='load_mutants_release_discipline', own_tier=True, py=cached_binary('c01_load', 'C16', 'C01'), targets=[('asan', 'c01_load')])],
     rule='explicit-state BFS over API histories on a memory face whose get_table returns a fresh exact-size heap copy per call and whose release_table frees it (outstanding set tracked; release of a non-outstanding pointer recorded): '
          'roots = fonts {S-min, S-full, S-full compressed, small.ttf} (thorough + Padauk) x faceOptions {0,2,4,6,7} x {release fn, no release fn}; operations = make font, 12 gr_make_seg variants (3 texts x dir x font/NULL), featureval_for_lang (default / language), clone, '
          'feature label in 3 encodings, value label, justify, linebreak, is_char_supported, full face dump, and destroy of every live object in every order that respects ownership (fonts/segments before the face; feature values and labels may outlive it); depth 5 (thorough 7), '
          'deduplicated on (live objects with parameters, outstanding borrows); every history is replayed on a fresh world and closed by destroying the rest in a legal order. Invariants after every operation: no foreign/double release, no get_table after load with preloadAll, ASan silence; at quiescence: no outstanding borrow, allocation balance zero. '
-         'Environment deviations: every table x {NULL, length 0, length 3} x options 0..7 x {release, no release}: outstanding set empty when gr_make_face returns NULL. Rejecting fonts: S-full with ONE unreadable glyph (outline box xMin > xMax; two positions) x options 0..7 x {release, no release}: preloading creation fails after the glyph loader borrowed its tables, lazy faces load and meet the glyph while shaping: same borrow invariants and allocation balance. File face: gr_make_file_face on 5 (thorough 7) fonts x options 0..7 x {whole file, cut to 3/4, 1/2, 12 bytes, empty, missing}: create, shape, query labels and features, destroy; allocation balance zero and no file descriptor left open, also after a failed creation. Load mutants: every deviation of the C01 enumeration (bytes, fields, field pairs, truncations, compressed payloads: see C01) is loaded through the same bookkeeping face; whether the library accepts or rejects the mutant, no borrow may stay outstanding, no foreign pointer may be released and the allocation balance must return to zero (one cached run per tree shared with C01)',
+         'Environment deviations: every table x {NULL, length 0, length 3} x options 0..7 x {release, no release}: outstanding set empty when gr_make_face returns NULL. Rejecting fonts: S-full with ONE unreadable glyph (outline box xMin > xMax; two positions) x options 0..7 x {release, no release}: preloading creation fails after the glyph loader borrowed its tables, lazy faces load and meet the glyph while shaping: same borrow invariants and allocation balance. File face: gr_make_file_face on 5 (thorough 7) fonts x options 0..7 x {whole file, cut to 3/4, 1/2, 12 bytes, empty, missing}: create, shape, query labels and features, destroy; allocation balance zero and no file descriptor left open, also after a failed creation. Load mutants: every deviation of the C01 enumeration (bytes, fields, field pairs, truncations, compressed payloads: see C01) is loaded through the same bookkeeping face; whether the library accepts or rejects the mutant, no borrow may stay outstanding, no foreign pointer may be released and the allocation balance must return to zero (one cached run per tree shared with C01; this step follows the requested tier: quick = the quick C01 enumeration)',
     state_meaning='states = distinct (live objects, outstanding borrows) configurations; transitions = API operations executed on real objects, invariants evaluated after each',
     level_text='Explicit-state BFS over API histories against an environment model of the table callbacks (fresh copies, strict bookkeeping), invariants in every state, plus exhaustive single-table environment deviations.',
     level_note='Trusted: environment model (src/common/memface.hpp), ASan use-after-free detection on released copies, allocator statistics for the balance. Object multiplicities are bounded (1 face, 1 font, 2 segments, 2 feature values, 1 label).',
@@ -196,7 +196,7 @@ CHECKS['C14'] = dict(
     steps=[dict(mode='asan', bin='c14_lz4'), dict(mode='asan', bin='c14_pair'),
            dict(name='transparency', py=stream_simple('transparency', 'lz4enum.py', 'c14_transparency'), targets=[('asan', 'c14_transparency')])],
     rule='decoder component on exact-size guard-page input and output buffers vs a byte-at-a-time reference LZ4 block decoder: (a) ALL blocks of <=2 sequences + final literals over literal lengths {0,1,7,8,14,15,16,270} x match lengths {4,5,18,19,20,274} x offsets {1,2,3,7,8,9,produced,produced+1,0} '
-         'x announced size {exact,-1,+1,+8}, and all 3-sequence blocks over reduced sets; (long_runs) literal-only blocks of every length 0..800, and one- and two-sequence blocks with literal / match lengths around one, two and three 255-extension bytes x offsets {1,2,7,8,16,produced} (overlapping copies, a second sequence with zero literals); (b) every truncation of valid seed blocks; (c) every single-byte deviation (all 255 values; thorough: x all token bytes) of valid seed blocks <=48 bytes; (d) ALL byte strings of length 13 (thorough 14) over {00,10,1F,F0}. '
+         'x announced size {exact,-1,+1,+8}, and all 3-sequence blocks over reduced sets; (long_runs) literal-only blocks of every length 0..800, and one- and two-sequence blocks with literal / match lengths around one, two and three 255-extension bytes x offsets {1,2,7,8,16,produced} (overlapping copies, a second sequence with zero literals); (b) every truncation of valid seed blocks, and valid seed blocks with 1..3 bytes appended (first byte all 256 values, the others over 6 boundary values: incomplete trailing sequences); (c) every single-byte deviation (all 255 values; thorough: x all token bytes) of valid seed blocks <=48 bytes; (d) ALL byte strings of length 13 (thorough 14) over {00,10,1F,F0}. In (b)-(d) a block the reference rejects is presented with the full size AND with every size at which its output would already be complete after some sequence literal run or match (the sizes at which a decoder that stops early reports success). '
          'Oracle: no fault, return in {-1} u [0,size]; size returned == announced size only if the reference decodes to exactly those bytes; valid shrinking encodings obeying the end-of-block rules must be accepted. '
          '(table_wrapper) the [version][scheme:5|announced size:27] header of the compressed Silf and Glat tables of the three compressed S-full variants (thorough + Awami compressed): ALL 32 scheme values x 32 boundary sizes (0..5, 7..9, 12, 13, 16, compressed length +-1/-8/-9, true size +-1/+-4, half, double, powers of two, 27-bit maximum), loaded with options 0 and 7 under ASan: no fault, unmodified header loads and reports the uncompressed face, borrowed tables returned. '
          'Transparency: S-full with Silf / Glat / both compressed under EVERY encoding that differs from the greedy parse in 1 decision (thorough: 2 nearby decisions) out of {literal instead of match, shortest match, farthest offset, 19-byte match (length-extension byte)}: plus, for each table, the valid blocks that are exactly 1..12 bytes shorter than the data (last matches shortened or dropped): must load (options 0 and 7) and give the same face dump and the same segments for all strings <=2 (thorough <=3) over 9 characters x dir 0/1 as the uncompressed font; '
